@@ -1,10 +1,60 @@
 /-
-  C13/Props.lean — property theorems of C13 (work in progress: see design/C13.md)
+  C13/Props.lean — property theorems of C13: every generated TLV model round-trips and matches its
+  generator.  The theorems are about the generic schema interpreter (`Model.lean`), for EVERY
+  well-formed schema and EVERY valid value; `all_generated_schemas_wf` instantiates them with the
+  table regenerated from the working tree on every check run (`Gen/C13Schemas.lean`).
+  Helper lemmas: Lemmas.lean, KindRT.lean, LoopSpec.lean, LoopU.lean, LoopO.lean, RoundTrip*.lean.
+  Core Lean only.
 -/
-import NdnVerif.C13.Model
+import NdnVerif.C13.RoundTrip
+import NdnVerif.C13.LoopU
+import NdnVerif.C13.LoopO
+import NdnVerif.Gen.C13Schemas
 namespace Ndn.C13
 
-theorem tlv_length (t : Nat) (b : Bytes) : (tlv t b).length = tlvLen t b.length := by
-  simp [tlv, tlvLen, encTL_length]; omega
+/-! ## "encoding yields exactly the number of bytes the encoder announced" -/
+
+/-- `EncodeInto` writes exactly `encoder.length` bytes: for every schema (well-formed or not) and
+    every value (valid or not). -/
+theorem encode_length_eq_announced (s : Schema) (v : Vals) : (encode s v).length = encLen s v :=
+  encFields_length v s.fields
+
+/-- the same for one field of any kind, at any nesting depth -/
+theorem field_length_eq_announced (k : Kind) (t : Nat) (v : Val) : (encKind k t v).length = lenKind k t v :=
+  encKind_length v k t
+
+example : (encode ⟨"x", false, .cons 7 .name (.cons 24 (.natural true) .nil)⟩
+            (.cons (.name [⟨8, [97]⟩]) (.cons (.nat 300) .nil))).length = 9 := by decide
+
+/-! ## the regenerated schema table -/
+
+/-- every model the generator accepts in the current working tree is well-formed: typed fields
+    have distinct non-zero type numbers below 2^64, fixed-width integers are 1/2/4/8 bytes wide,
+    sequence elements and map values are single-TLV kinds, map keys are naturals or strings.
+    (`decide` over the finite regenerated table.) -/
+theorem all_generated_schemas_wf : ∀ s ∈ Ndn.Gen.C13.allSchemas, wfSchema s = true := by
+  have h : Ndn.Gen.C13.allSchemas.all wfSchema = true := by decide
+  intro s hs
+  exact List.all_eq_true.mp h s hs
+
+/-- the table is what the check discovered: non-empty and of the announced size -/
+theorem generated_table_size : Ndn.Gen.C13.allSchemas.length = Ndn.Gen.C13.modelCount := by decide
+
+/-! ## "decoding it reproduces the value" -/
+
+/-- decode ∘ encode = id for every well-formed schema, every valid value, with or without
+    `ignoreCritical`; nested models, sequences, maps, ordered and unordered models included. -/
+theorem parse_encode (s : Schema) (v : Vals) (ic : Bool)
+    (hwf : wfSchema s = true) (hv : validVs s.fields v = true) :
+    ∃ a, parse s ic (encode s v) = .ok v a :=
+  parse_encode' LU.loopU_spec LO.loopO_spec s v ic hwf hv
+
+/-- instantiated: every generated model of the working tree round-trips every valid value -/
+theorem generated_models_roundtrip (s : Schema) (hs : s ∈ Ndn.Gen.C13.allSchemas) (v : Vals) (ic : Bool)
+    (hv : validVs s.fields v = true) : ∃ a, parse s ic (encode s v) = .ok v a :=
+  parse_encode s v ic (all_generated_schemas_wf s hs) hv
+
+-- non-vacuity: a nested ordered struct, a sequence of structs, a map, a bool and an optional time
+example : wfFields exFields = true ∧ validVs exFields exVal = true := by decide
 
 end Ndn.C13
